@@ -27,6 +27,7 @@ C07 regress/C07-shutdown-during-gc-3563302134185838027.json 93602c9
 C15 regress/C15-second-route-reload-1201409606913257291.json 93361d6
 C12 regress/C12-append-accounting-race-1987312816409268858.json c76529b
 C13 regress/C13-hint-lookup-eof-1651978268130638736.json 6295877
+C13 regress/C13-stale-collision-registration-2970692947236326030.json 66f2ad3
 C13 regress/C13-get-before-hints-loaded-2337750529945228142.json 55441ef
 C05 regress/C05-gc-vs-hint-loader-3713217905197791706.json 5cb5596
 C13 regress/C13-restart-older-own-value-3023141186284758218.json 2c2f6c6
